@@ -23,6 +23,11 @@ def install(reg):
             s = Str(v.v)
             s.is_bytes = True           # h5py returns variable-length strings as bytes
             return s
+        if isinstance(v, Obj) and v.cls == "StrArrayIn":
+            return Obj("StrArray", {"items": PyList(list(v.f["items"].items))})       # numpy array of variable-length strings (any length, also empty)
+        if isinstance(v, PyList) and not v.items:
+            # a plain empty Python list carries no element type: h5py stores (and returns) an empty float64 array
+            return Arr(z3.IntVal(0), "real", lambda kk: z3.RealVal(0), "empty_float64_array")
         if isinstance(v, PyList) and all(isinstance(x, Str) for x in v.items):
             return Obj("StrArray", {"items": PyList(list(v.items))})
         return v
@@ -48,8 +53,8 @@ def install(reg):
 
     def np_array(I, a, k, n):
         v = a[0]
-        if isinstance(v, (PyList, Tup)) and all(isinstance(x, Str) for x in v.items):
-            return PyList(list(v.items))
+        if isinstance(v, (PyList, Tup)) and all(isinstance(x, Str) for x in v.items) and not isinstance(k.get("dtype", NONE), NoneV):
+            return Obj("StrArrayIn", {"items": PyList(list(v.items))})                    # np.array(list_of_str, dtype=h5py.string_dtype())
         return I.reg.handlers["xp.asarray"](I, ([Mod("xp")] if getattr(I.reg.handlers["xp.asarray"], "_wants_mod", False) else []) + [v], {}, n)
     reg.handlers["xp.array"] = np_array
 
